@@ -12,6 +12,8 @@ from sim.kernel import Deadlock, StepCap
 from sim.tape import Tape
 from sim.userfuncs import canon
 
+from . import c05_crash as c05
+from . import c06_parts as c06
 from . import common as C
 
 PID = "C04"
@@ -63,6 +65,18 @@ def gen_case(tape, tier):
         else:
             ops.append({"op": "xarray", "intermediate": bool(tape.coin(0.5, "intermediate"))})
     cfg = {"storage": storage, "executor": executor, "preempt": tape.pick([0.1, 0.5], "preempt")}
+    # what was in the folder before the run whose results are reloaded
+    pre = tape.pick(["none", "none", "none", "crashed-other", "complete-other", "partial-same", "crashed-same"], "prehistory")
+    if pre == "partial-same":
+        ind, _red = c06.independent_axes(w)
+        if ind:
+            a = tape.pick(ind, "pre-axis")
+            cfg["pre_fixed"] = {a: tape.choose(w["indices"][a], "pre-index")}
+        else:
+            pre = "none"
+    if pre.startswith("crashed"):
+        cfg["pre_crash_at"] = 2 + tape.choose(60, "pre-crash-at")
+    cfg["pre"] = pre
     return {"workload": w, "config": cfg, "ops": ops}
 
 
@@ -72,6 +86,11 @@ def simplify(case):
         c["workload"] = w
         if isinstance(c["config"]["storage"], dict):
             c["config"]["storage"] = next(iter(c["config"]["storage"].values()))
+        if c["config"].get("pre") == "partial-same":
+            ind, _r = c06.independent_axes(w)
+            if not set(c["config"].get("pre_fixed", {})) <= set(ind) or any(
+                    v >= w["indices"][a] for a, v in c["config"]["pre_fixed"].items()):
+                c["config"]["pre"] = "none"
         outs = set(all_outputs(w))
         ops = []
         for op in c["ops"]:
@@ -93,6 +112,10 @@ def simplify(case):
     if cfg["executor"]["kind"] != "sequential":
         c = copy.deepcopy(case)
         c["config"]["executor"] = {"kind": "sequential"}
+        yield c
+    if cfg.get("pre", "none") != "none":
+        c = copy.deepcopy(case)
+        c["config"]["pre"] = "none"
         yield c
     for i in range(len(case["ops"])):
         c = copy.deepcopy(case)
@@ -168,7 +191,8 @@ def run_case(case, exec_seed=None, exec_tape=None):
             sim = state["sim"]
             executor, parallel = C.make_executor(sim, cfg["executor"])
             res = p.map(inputs, run_folder=folder, parallel=parallel, executor=executor,
-                        storage=C.storage_arg(cfg["storage"]), persist_memory=True, **map_kwargs(w))
+                        storage=C.storage_arg(cfg["storage"]), persist_memory=True,
+                        cleanup=cfg.get("pre", "none") in ("none", "complete-other"), **map_kwargs(w))
             truth["R"] = {o: canon(res[o].output) for o in all_outputs(w)}
             truth["inputs"] = {k: canon(v) for k, v in inputs.items()}
             truth["defaults"] = {k: canon(v) for k, v in p.defaults.items()}
@@ -257,6 +281,39 @@ def run_case(case, exec_seed=None, exec_tape=None):
             state["fresh"] = True
             probes["process_exit"] = probes.get("process_exit", 0) + 1
 
+        # ---- prehistory: what an earlier process left in the folder
+        pre = cfg.get("pre", "none")
+        if pre != "none":
+            try:
+                with C.new_sim(Tape(recorded=[]), preempt=0.0):
+                    build_pipeline(w)  # a workload the tree refuses to construct is not this property's business
+            except Exception:  # noqa: BLE001
+                out["discarded"] = True
+                out["exec_tape"] = tape.recorded()
+                return out
+            pcfg = dict(cfg, executor={"kind": "sequential"}, orphans=False)
+            if pre in ("crashed-other", "crashed-same"):
+                a0 = c05.run_attempt(w, pcfg, root, tape, attempt=-1, cleanup=True,
+                                     interruption={"kind": "crash", "at": cfg["pre_crash_at"], "torn": None},
+                                     inputs_variant=(pre == "crashed-other"))
+                probes["pre_crashed" if a0.outcome == "crash" else "pre_completed"] = 1
+            elif pre == "complete-other":
+                c05.run_attempt(w, pcfg, root, tape, attempt=-1, cleanup=True, inputs_variant=True)
+            else:
+                simp = C.new_sim(tape, root, preempt=0.0)
+                with simp:
+                    def partial():
+                        p0 = build_pipeline(w)
+                        p0.map(build_inputs(w), run_folder=folder, parallel=False, storage=C.storage_arg(cfg["storage"]),
+                               persist_memory=True, fixed_indices=dict(cfg["pre_fixed"]), **map_kwargs(w))
+                    try:
+                        simp.kernel.run(partial)
+                        probes["pre_partial_run"] = 1
+                    except Exception:  # noqa: BLE001 - refused partial run: nothing left behind that matters
+                        probes["pre_partial_refused"] = 1
+                simmanager.shutdown_all(simp)
+            probes[f"pre:{pre}"] = 1
+
         # ---- process A: run, then loads in the same process until the first exit
         idx = 0
         sim = new_process()
@@ -323,7 +380,16 @@ def _ds_values(ds, w):
     for n in all_outputs(w):
         if n in ds.variables:
             try:
-                vals[n] = canon(ds[n].values)
+                vals[n] = _nan_token(canon(ds[n].values))
             except Exception as e:  # noqa: BLE001
                 vals[n] = f"<unreadable:{type(e).__name__}>"
     return vals
+
+
+def _nan_token(v):
+    """xarray turns missing entries into float nan; nan != nan would make equal datasets compare unequal."""
+    if isinstance(v, float) and v != v:
+        return "<NaN>"
+    if isinstance(v, tuple):
+        return tuple(_nan_token(x) for x in v)
+    return v
